@@ -323,14 +323,10 @@ Proof.
   rewrite wit_tmp0 in Hd. apply Hm0. rewrite Hd. exact F6.
 Qed.
 
+(* the refutation, stated on the named witness call [wit_run] (= one LZ4F_decompress call on a fresh context,
+   legal by the API: stableDst = 0, capacity 61441, the whole frame as input) *)
 Theorem dict_is_history_refuted :
-  exists src cap o dstStart,
-    let w := dd_decompress spec_decode_fast dctx_init dd_init src cap o dstStart in
-    let s := fst (fst (fst w)) in let r := snd (fst (fst w)) in let d := snd (fst w) in let ops := snd w in
-    linked s = true /\ 0 <= r_ret r /\ o_stableDst o = false /\
-    forall m0, m_tmp m0 0 <> 7 ->       (* tmpOutBuffer comes from malloc: its initial content is arbitrary *)
-      ~ dict_is_history (exec_ops m0 ops) d (r_out r).
-Proof.
-  exists wit_frame, 61441, (mkO false false false), 1000000. cbv zeta.
-  pose proof wit_refutes as H. unfold wit_s, wit_r, wit_d, wit_ops, wit_run in H. exact H.
-Qed.
+  linked wit_s = true /\ 0 <= r_ret wit_r /\
+  forall m0, m_tmp m0 0 <> 7 ->       (* tmpOutBuffer comes from malloc: its initial content is arbitrary *)
+    ~ dict_is_history (exec_ops m0 wit_ops) wit_d (r_out wit_r).
+Proof. destruct wit_refutes as (A & B & _ & C). auto. Qed.
